@@ -445,6 +445,18 @@ def fam_c18_logos(R, n):
             src = '\n'.join([HDR, '#[logos(%s)]' % ', '.join(perm), head + ' {'] + ['    ' + v for v in variants] + ['}'])
             out.append(dict(family='c18-logos-generic', src=src, meta=dict(group=gid, perm=list(perm), exact=True)))
         gid += 1
+    # items whose meaning depends on another item of the same attribute: the lexer mode and byte-level subpatterns / skips,
+    # a skip that refers to a subpattern; every order that keeps a subpattern before its use
+    inter = ['utf8 = false', 'subpattern hi = b"[\\x80-\\xFF]"', 'skip(b"\\xFE+")', 'skip("(?&hi)+x")']
+    for sub in ([0, 1], [0, 2], [0, 1, 3], [0, 1, 2], [0, 1, 2, 3]):
+        its = [inter[j] for j in sub]
+        first = True
+        for perm in itertools.permutations(its):
+            if 'skip("(?&hi)+x")' in perm and perm.index('skip("(?&hi)+x")') < perm.index(inter[1]):
+                continue
+            src = enum(['#[logos(%s)]' % ', '.join(perm)], ['#[regex("[a-z]+")] Id,', '#[token("=")] Eq,'])
+            out.append(dict(family='c18-logos', src=src, meta=dict(group=gid, perm=list(perm))))
+        gid += 1
     for i in range(n):
         k = R.choice([2, 3, 3, 4])
         items = R.sample(LOGOS_ITEMS, k)
@@ -463,9 +475,12 @@ def fam_c18_logos(R, n):
 DERIVES = ['Logos', 'Debug', 'Clone', 'PartialEq', 'Eq', 'Copy', 'Hash', 'logos::Logos', '::logos::Logos', 'serde::Serialize',
            '::core::fmt::Debug', 'std::cmp::PartialOrd', 'my::Logos']
 ENUM_ATTRS = ['#[repr(u8)]', '#[allow(dead_code)]', '/// A token.', '#[cfg_attr(test, derive(Default))]', '#[non_exhaustive]',
-              '#[logos(skip " +")]', '#[logos(extras = u32)]', '#[cfg_attr(feature = "x", logos(skip "y"))]', '#[doc = "hi"]']
-VAR_ATTRS = ['/// doc comment', '#[allow(unused)]', '#[cfg(test)]', '#[default]', '#[doc(hidden)]']
-FIELD_ATTRS = ['#[allow(unused)]', '#[cfg(test)]']
+              '#[logos(skip " +")]', '#[logos(extras = u32)]', '#[cfg_attr(feature = "x", logos(skip "y"))]', '#[doc = "hi"]',
+              # other crates' attributes whose path ends in a helper attribute's name are not logos's to remove
+              '#[grammar::token(kind = "arith")]', '#[highlight::regex]', '#[other::logos(skip)]', '#[::token]', '#[my::lexer::regex("x")]']
+VAR_ATTRS = ['/// doc comment', '#[allow(unused)]', '#[cfg(test)]', '#[default]', '#[doc(hidden)]', '#[grammar::token(kind = "v")]', '#[highlight::regex]',
+             '#[serde::logos]', '#[::regex("q")]']
+FIELD_ATTRS = ['#[allow(unused)]', '#[cfg(test)]', '#[grammar::token]', '#[x::regex("f")]', '#[y::logos]']
 
 
 def fam_c17(R, n):
@@ -504,6 +519,16 @@ def fam_c17(R, n):
             vs.append('\n    '.join(parts + [body + ',']))
         src = '\n'.join(attrs + ['pub enum T%d {' % i] + ['    ' + v for v in vs] + ['}'])
         out.append(dict(family='c17', src=src, meta={}))
+    # enumerated: every attribute of the pools at every level (enum, variant, field) next to real helper attributes
+    for k, dl in enumerate(['#[derive(Logos, Debug)]', '#[derive(Debug, logos::Logos)]']):
+        vs = []
+        for j, va in enumerate(VAR_ATTRS):
+            fa = FIELD_ATTRS[j % len(FIELD_ATTRS)]
+            vs.append('%s\n    #[token("w%d", |_| 0u32)]\n    W%d(%s u32),' % (va, j, j, fa))
+        for j, fa in enumerate(FIELD_ATTRS):
+            vs.append('#[regex("f%d+", |_| 0u32)]\n    F%d(%s u32),' % (j, j, fa))
+        src = '\n'.join([dl] + ENUM_ATTRS + ['pub enum TA%d {' % k] + ['    ' + v for v in vs] + ['}'])
+        out.append(dict(family='c17-all-attrs', src=src, meta={}))
     return out
 
 
@@ -587,8 +612,11 @@ def fam_c19(R, n_random):
     for p in ['.*a', 'a.*', 'a.+', '(a.*)b', 'a(.*b)?', '((.+))', 'x(?:y(?:z.*))', '(a|b.*)c', '(?s:.)*', 'a[^\\n]*', 'x(a(b(c.+)))?', '(.*)+a', 'a(?:.*b){2}', '(?-u:.)*a', '(?s-u:.)+', '(.)*x', '((.))+x', '(?:(.)*y)+', '(?R).*', '(?R:.+)x', 'a[^\\r\\n]*', '(?R-u:.)*z', '[^\\n]+q', '(?s).*']:
         add(enum([], ['#[regex(%s)] A,' % rust_str(p)]), 'reject', 'greedy')
         add(enum([], ['#[regex(%s, allow_greedy = true)] A,' % rust_str(p)]), 'noreject-greedy')
+        add(enum([], ['#[regex(%s, allow_greedy = false)] A,' % rust_str(p)]), 'reject', 'greedy', 'allow_greedy = false is not an opt-in')
     add(enum(['#[logos(skip(".*x"))]'], ['#[token("b")] B,']), 'reject', 'greedy')
     add(enum(['#[logos(skip(".*x", allow_greedy = true))]'], ['#[token("b")] B,']), 'noreject-greedy')
+    add(enum(['#[logos(skip(".*x", allow_greedy = false))]'], ['#[token("b")] B,']), 'reject', 'greedy', 'allow_greedy = false is not an opt-in (skip)')
+    add(enum([], ['#[regex(".+q", priority = 3, allow_greedy = false)] A,']), 'reject', 'greedy', 'allow_greedy = false next to another argument')
     for p in ['.*?a', 'a.{0,5}', 'a.?', '(.{2,3})+a', '[^a]+']:
         add(enum([], ['#[regex(%s)] A,' % rust_str(p)]), 'accept', None, 'bounded / lazy / not a dot')
     # non UTF-8 in str mode
